@@ -83,7 +83,12 @@ def build(case):
         G.add_nodes_from([("x", 0), ("y", 0)])
     else:
         G = cls()
-        G.add_nodes_from(labs)
+        if case.get("lazy"):
+            # only the endpoints of the initial entries exist; other nodes are created by the operations
+            used = sorted({x for k in KEYS for e in case.get("init", {}).get(k, []) for x in e})
+            G.add_nodes_from([labs[i] for i in used])
+        else:
+            G.add_nodes_from(labs)
     for k in KEYS:
         for a, b in case.get("init", {}).get(k, []):
             G.get_graphs(LAYER[k]).add_edge(labs[a], labs[b])
@@ -298,7 +303,13 @@ def judge_trace(case, tr, spec):
         named = [(min(u, v), max(u, v)) for u, v in op_pairs(op) if u != v]
         if any(prev[p].strip("0") for p in named if p in prev):
             nontrivial = True
-        if o["nodes"] != tr[0]["nodes"]:
+        # nodes: with lazily created nodes a successful add may create its endpoints; a call that raises must
+        # leave the node set as it was, and no call may lose a node
+        # (only the guard's RuntimeError is "a mutation that would break this"; an unsupported edge type is
+        # rejected by the container with ValueError after it created the endpoints - not C03's subject)
+        if (o["nodes"] != tr[i - 1]["nodes"] and o["raised"] == 1 and o.get("exc") == "RuntimeError") or \
+                o["nodes"] < tr[i - 1]["nodes"] or \
+                (not case.get("lazy") and o["nodes"] != tr[0]["nodes"]):
             vio.append((i, "nodes", "the node set changed"))
         if o["raised"] == 1 and (cur != prev) and start_good:
             if ts and op[0] == "A":
@@ -483,7 +494,8 @@ def gen_random(ctx, spec, count):
             ini = state_init("".join(rng.choice("01") for _ in range(6 if fam == "P" else 3)), fam)
         ln = rng.choice((2, 4, 8, 12, 20, 30))
         yield {"cls": cls, "n": n, "init": ini, "ops": [rand_op(rng, n, fam) for _ in range(ln)],
-               "form": rng.choice(("list", "list", "tup3", "gen")), "fam": fams[i % len(fams)], "src": "rnd"}
+               "form": rng.choice(("list", "list", "tup3", "gen")), "fam": fams[i % len(fams)], "src": "rnd",
+               "lazy": rng.random() < 0.4}
 
 
 def gen_ts(ctx, count):
